@@ -55,6 +55,12 @@ def compare(ctx, job, m, o, tag, failed):
                   {n2["name"] for p2, n2 in IR.all_nodes(job["prog"]) if "/" in p2 and n2["kind"] != "graph"}
     an = {k: v for k, v in leaf_args(o["calls"]).items() if k in inner_names}
     af = {k: v for k, v in leaf_args(of["calls"]).items() if k in inner_names}
+    if job["flat"]["selected"] != IR.UNSET:
+        # under a graph-level select, nodes the selection does not need run only if their inputs happen to be
+        # available (an inner binding of a wrapper outside the selection is not surfaced to outer consumers):
+        # whether such a nested function runs at all is not the property's business, what it receives when it runs is
+        both = set(an) & set(af)
+        an, af = {k: v for k, v in an.items() if k in both}, {k: v for k, v in af.items() if k in both}
     if an != af:
         bad = sorted(n for n in set(an) | set(af) if an.get(n) != af.get(n))
         return ctx.violation("inner-arguments", wit, f"functions {bad} received different arguments in the nested graph: {[an.get(b) for b in bad]} vs {[af.get(b) for b in bad]}")
